@@ -1,4 +1,5 @@
 import Martian.Util
+import Martian.Model.H2Hpack
 /-!
 Executable model of `h2/relay.go` + `h2/queued_frames.go` (one relay = one direction of a proxied
 HTTP/2 session), shared by C08 (frame fidelity) and C09 (flow control).
@@ -15,13 +16,17 @@ Layers, following the code:
 Choices of the implementation that the model takes as arguments (theorems quantify over them):
 * the iteration order of the Go map `outputBuffers` in `sendQueuedFramesUnderWindowSize`;
 * the bytes the HPACK encoder returns for a field list (only their length matters here).
-HPACK itself is abstracted: a decoded field list is identified with the block it was decoded
-from, and every encoded block carries the encoder's sequence number (`stamp`); the peer can
-decode blocks only in stamp order (dynamic-table dependency).
+HPACK is abstracted on the way out: a decoded field list is identified with its canonical literal
+block, and every encoded block carries the encoder's sequence number (`stamp`); the peer can
+decode blocks only in stamp order (dynamic-table dependency). On the way in, a header block is
+either opaque (literal-only blocks, which neither read nor write the dynamic table) or a list of
+HPACK representations (`Frame.headersRep`) decoded by the relay's decoder (`Model/H2Hpack.lean`:
+dynamic table, size updates); SETTINGS_HEADER_TABLE_SIZE drives the encoder's size signalling.
 Go `int` is 64-bit: window arithmetic is modelled in `Int` without overflow.
 -/
 namespace Martian.H2Relay
 open Martian
+open Martian.H2Hpack (Rep Hp)
 
 structure Prio where
   dep : Nat
@@ -37,6 +42,7 @@ def Prio.isZero (p : Prio) : Bool := decide (p = Prio.zero)
 inductive Frame
   | data (sid : Nat) (es : Bool) (payload : Bytes) (padLen : Option Nat)
   | headers (sid : Nat) (es eh : Bool) (prio : Option Prio) (frag : Bytes)
+  | headersRep (sid : Nat) (es : Bool) (prio : Option Prio) (reps : List Rep)  -- END_HEADERS set; block given as representations
   | pushPromise (sid promised : Nat) (eh : Bool) (frag : Bytes)
   | continuation (sid : Nat) (eh : Bool) (frag : Bytes)
   | priority (sid : Nat) (p : Prio)
@@ -71,6 +77,7 @@ list is represented by the header block it came from. -/
 inductive Call
   | data (sid flow : Nat) (payload : Bytes) (es : Bool)   -- peer.sendWindowUpdates(f); Data sink
   | header (sid : Nat) (fields : Bytes) (es : Bool) (prio : Prio)
+  | headerRep (sid : Nat) (reps : List Rep) (es : Bool) (prio : Prio)   -- `decodeFull` still to be done
   | pushPromise (sid promised : Nat) (fields : Bytes)
   | priority (sid : Nat) (p : Prio)
   | rst (sid code : Nat)
@@ -87,6 +94,7 @@ def dispatch (d : DState) : Frame → DState × List Call
   | .headers sid es eh prio frag =>
     if eh then (d, [.header sid frag es (prio.getD Prio.zero)])
     else ({ hbuf := frag, cont := .hdr (prio.getD Prio.zero) es }, [])
+  | .headersRep sid es prio reps => (d, [.headerRep sid reps es (prio.getD Prio.zero)])
   | .pushPromise sid promised eh frag =>
     if eh then (d, [.pushPromise sid promised frag])
     else ({ hbuf := frag, cont := .push promised }, [])
@@ -297,29 +305,75 @@ structure Sys where
   s2c : Relay := {}
   dc : DState := {}
   ds : DState := {}
+  hc : Hp := {}            -- HPACK state of the client-to-server relay (decoder: client's blocks)
+  hs : Hp := {}
+  flushC : List (List Nat) := []   -- size updates written in front of each block the c2s encoder produced
+  flushS : List (List Nat) := []
+  errC : Bool := false     -- `processFrame` of that direction returned an error: the direction ends
+  errS : Bool := false
 
 def Sys.relay (s : Sys) : Dir → Relay | .c2s => s.c2s | .s2c => s.s2c
 def Sys.setRelay (s : Sys) : Dir → Relay → Sys
   | .c2s, r => { s with c2s := r } | .s2c, r => { s with s2c := r }
 def Dir.peer : Dir → Dir | .c2s => .s2c | .s2c => .c2s
 def Sys.on (s : Sys) (d : Dir) (i : RIn) : Sys := s.setRelay d (rstep (s.relay d) i)
+def Sys.hp (s : Sys) : Dir → Hp | .c2s => s.hc | .s2c => s.hs
+def Sys.setHp (s : Sys) : Dir → Hp → Sys
+  | .c2s, h => { s with hc := h } | .s2c, h => { s with hs := h }
+def Sys.flushLog (s : Sys) : Dir → List (List Nat) | .c2s => s.flushC | .s2c => s.flushS
+def Sys.setErr (s : Sys) : Dir → Sys
+  | .c2s => { s with errC := true } | .s2c => { s with errS := true }
 
-/-- The per-setting loop of the SETTINGS case of `processFrame` (peer updates only). -/
-def applySettings (s : Sys) (peer : Dir) (order : List Nat) : List (Nat × Nat) → Sys
+/-- `encodeFull`: the encoder writes its pending size updates in front of the block. -/
+def Sys.encodeBlock (s : Sys) (d : Dir) : Sys :=
+  let r := (s.hp d).enc.flush
+  let s1 := s.setHp d { (s.hp d) with enc := r.1 }
+  match d with
+  | .c2s => { s1 with flushC := s1.flushC ++ [r.2] }
+  | .s2c => { s1 with flushS := s1.flushS ++ [r.2] }
+
+/-- Last value a SETTINGS frame carries for an identifier (`none`: it does not occur). -/
+def lastOf (id : Nat) : List (Nat × Nat) → Option Nat
+  | [] => none
+  | (i, v) :: rest =>
+    match lastOf id rest with
+    | some w => some w
+    | none => if i = id then some v else none
+
+/-- The `ForeachSetting` loop of the SETTINGS case of `processFrame`: HEADER_TABLE_SIZE and
+MAX_FRAME_SIZE are handed to the peer relay value by value in the order they appear; the
+INITIAL_WINDOW_SIZE values are only remembered (the last one wins). -/
+def settingsLoop (s : Sys) (peer : Dir) : List (Nat × Nat) → Sys
   | [] => s
   | (id, v) :: rest =>
-    let s' := if id = 4 then s.on peer (.initWin v order)
-              else if id = 5 then s.on peer (.maxFrame v)
-              else s            -- HEADER_TABLE_SIZE only touches the abstracted HPACK state
-    applySettings s' peer order rest
+    let s' := if id = 5 then s.on peer (.maxFrame v)
+              else if id = 1 then s.setHp peer ((s.hp peer).updateTableSize v)
+              else s
+    settingsLoop s' peer rest
+
+/-- The SETTINGS case of `processFrame` up to the forwarding write: the loop, then
+`updateInitialWindowSize` once, with the last INITIAL_WINDOW_SIZE of the frame, if there is one
+(RFC 7540 6.5.3: no other processing between the values of one frame; `order` = map iteration
+order of the single pass this triggers). -/
+def applySettings (s : Sys) (peer : Dir) (order : List Nat) (kvs : List (Nat × Nat)) : Sys :=
+  let s1 := settingsLoop s peer kvs
+  match lastOf 4 kvs with
+  | some v => s1.on peer (.initWin v order)
+  | none => s1
 
 /-- Effect of one call of `processFrame` of direction `d`. `enc`: what the HPACK encoder returns
 for this block; `order`: map iteration order of the pass this call triggers, if any.
-`none` = Go panic. -/
+`none` = Go panic. A decoding error sets the direction's error flag (`processFrame` returns it). -/
 def applyCall (s : Sys) (d : Dir) (enc : Bytes) (order : List Nat) : Call → Option Sys
   | .data sid flow payload es => some ((s.on d.peer (.credit sid flow)).on d (.data sid payload es))
-  | .header sid fields es prio => some (s.on d (.header sid fields es prio enc))
-  | .pushPromise sid promised fields => some (s.on d (.push sid promised fields enc))
+  | .header sid fields es prio => some ((s.encodeBlock d).on d (.header sid fields es prio enc))
+  | .headerRep sid reps es prio =>
+    match (s.hp d).dec.decodeFull reps with
+    | none => some (s.setErr d)
+    | some (dec', fields) =>
+      let s1 := s.setHp d { (s.hp d) with dec := dec' }
+      some ((s1.encodeBlock d).on d (.header sid (H2Hpack.litEncode fields) es prio enc))
+  | .pushPromise sid promised fields => some ((s.encodeBlock d).on d (.push sid promised fields enc))
   | .priority sid p => some (s.on d (.priority sid p))
   | .rst sid code => some (s.on d (.rst sid code))
   | .settings kvs => some ((applySettings s d.peer order kvs).on d (.ctl (.settings kvs)))
